@@ -28,6 +28,8 @@ def run_session(cfg, calls_iter, sid):
         c = pick(drv) if callable(pick) else pick
         ok, err, emit, ret = drv.apply(c)
         sess["steps"].append({"c": c, "ok": ok, "err": err, "ret": ret, "emit": emit, "post": drv.project()})
+    # the track queries are asked once, at the end (get_track_neighbors re-sorts the lookup lists as a side effect)
+    sess["final"] = drv.project(queries=True)
     return sess
 
 
